@@ -54,6 +54,7 @@ struct Options
   int threads {16};
   double deadline_s {1e9};
   // replay
+  std::string judge_file;              // --judge: pointwise verdicts on externally supplied (constant-evaluated) results
   bool replay {};
   std::string rcase, rcfg;
   std::vector<std::string> rin;
@@ -130,6 +131,11 @@ std::vector<i64> const& anchors();
 // two-cluster values +-((m1 << e1) | (m2 << e2)), 1 <= m1, m2 < 2^w, e1 > e2 + w: two separated groups of significant bits (for unary sweeps only)
 std::vector<i64> S2_set(int w, bool with_nan = false);
 std::vector<i64> merge_sets(std::vector<i64> a, std::vector<i64> const& b);
+// D(level): "digit pattern" words, the classical multi-precision corner alphabet: every 64-bit word whose 16-bit digits (and,
+// separately, whose 32-bit digits) are drawn from {0, 1, 2, half-1, half, half+1, max-1, max, ...}, both signs. They reach the
+// quotient-digit-estimate, carry and cross-term corners of limb-wise multiply/divide code that few-bit shapes do not.
+// level 0: 32-bit digits only (small); 1: plus 16-bit digits from 6 values; 2: 16-bit digits from 8 values.
+std::vector<i64> D_set(int level, bool with_nan = false);
 std::vector<i64> filter_abs_below(std::vector<i64> const& v, i64 bound);   // |x| < bound
 std::string to_s(i64 v);
 std::string to_su(u64 v);
@@ -164,6 +170,17 @@ struct PropertyDef { const char* id; explore_fn explore; replay_fn replay; };
 void register_property(PropertyDef const& d);
 #define REGISTER_PROPERTY(ID, EXPLORE, REPLAY) \
   static struct Reg_##ID { Reg_##ID() { register_property(PropertyDef{#ID, EXPLORE, REPLAY}); } } reg_##ID##_instance;
+
+// Pointwise judge: the property's own oracle applied to a result that was NOT obtained from a run-time shim (the compiler's
+// constant evaluator produced it). kind/args name the call exactly like the driver's run-time tuples:
+//   un(op,a) bin(op,a,b) shift(left,a,r) from_int(how,t,bits) to_int(how,t,a) from_fp(how,t,bits) to_fp(how,t,a)
+//   mixed(op,t,order,a,bits) a2r(t,bits) xangle(fn,t,bits) angle_aprox(cosine,d)
+// Returns false when the property has no pointwise clause for that call (the driver treats that as its own error).
+// 's' is the run-time shim of the same configuration: used for labels and for helper values the property delegates
+// to another property (e.g. double(a) in C16), never for the judged call itself.
+typedef bool (*judge_fn)(Shim* s, Recorder& rec, std::string const& kind, std::vector<u64> const& a, u64 value, u64 idx);
+void register_judge(const char* id, judge_fn fn);
+#define REGISTER_JUDGE(ID, FN) static struct RegJ_##ID { RegJ_##ID() { register_judge(#ID, FN); } } regj_##ID##_instance;
 
 i64 parse_i64(std::string const& s);
 u64 parse_u64(std::string const& s);
@@ -232,6 +249,44 @@ template<typename Chk> u64 sweep_pairs(Shim* s, int op, std::vector<i64> const& 
     });
   u64 n = static_cast<u64>(A.size()) * Bv.size();
   rec.add_states(n, n, n);
+  return n;
+  }
+// ---- two-call histories on ONE thread: f(a); f(b) where b "aliases" a (equal modulo 2^k, equal above bit k, negated, or
+// the same value again). A function that keeps state between calls (a memo keyed on part of its argument, a cached
+// reduction) answers the second call from the first; any single-call sweep, in which neighbouring calls have
+// unrelated or adjacent arguments, cannot show that. The second call's value goes to the property's own oracle.
+std::vector<i64> alias_args(i64 a, i64 lo, i64 hi);
+std::vector<i64> const& history_seeds();
+// wraps a LocalViol: the recorded example replays the whole history ("althist": op, a, then the inner case)
+struct HistViol
+  {
+  LocalViol& lv; int op; i64 a;
+  template<typename F> void hit(int cl, u64 ord, F && f)
+    {
+    auto g = std::forward<F>(f); int op_ = op; i64 a_ = a;
+    lv.hit(cl, ord, [=]{ Example e = g(); e.shape += (e.shape.empty() ? "" : ", ") + std::string("second of two calls on one thread; the first call had argument ") + to_s(a_);
+      e.inputs.push_back({"first_call_argument", to_s(a_)});
+      std::vector<std::string> r { to_s(op_), to_s(a_), e.rcase }; r.insert(r.end(), e.rin.begin(), e.rin.end()); e.rin = r; e.rcase = "althist"; return e; });
+    }
+  };
+// chk(b, got, order, HistViol&) for every seed a in [lo,hi] and every b in alias_args(a); single-threaded by design
+template<typename Chk> u64 sweep_alias_histories(Shim* s, int op, i64 lo, i64 hi, Recorder& rec, u64 order_base, Chk chk)
+  {
+  LocalViol lv(rec); u64 n = 0;
+  std::vector<i64> const& A = history_seeds();
+  for( size_t ia = 0; ia < A.size(); ++ia )
+    {
+    i64 a = A[ia]; if( a < lo || a > hi ) continue;
+    std::vector<i64> Bv = alias_args(a, lo, hi);
+    HistViol hv { lv, op, a };
+    for( size_t ib = 0; ib < Bv.size(); ++ib )
+      {
+      i64 g = 0; int sg = guarded([&]{ s->fm_un(op, a); g = s->fm_un(op, Bv[ib]); }); ++n;
+      if( sg ) { report_trap(rec, lv, s, false, op, Bv[ib], 0, sg, order_base + (ia << 12) + ib); continue; }
+      chk(Bv[ib], g, order_base + (ia << 12) + ib, hv);
+      }
+    }
+  rec.add_states(n, 2 * n, n); rec.count("two_call_histories_with_aliased_arguments", n);
   return n;
   }
 // expected value of fm_un_cmpmask / fm_bin_cmpmask for a result r (comparisons against the shim's constants, isnan, >= 0, != 0)
